@@ -1978,6 +1978,21 @@ struct Explorer {
         }
       }
     }
+    // What another command line reported says nothing about this statement: when the build log's record of the output
+    // was written for a different command (the manifest was edited since), the list is obsolete, the statement runs again
+    // whatever it says, and a cycle "closed" by it is no cycle of the project (ninja does not load such a list).
+    if (!disc.empty() && !s.generator) {
+      lp::BuildLogModel bl;
+      if (auto* f = d.Get(kLog)) bl = lp::ParseBuildLog(f->data);
+      auto e = bl.entries.find(s.id);
+      if (e != bl.entries.end()) {
+        string cmd = s.cmd;
+        if (!s.rspfile_content.empty()) cmd += ";rspfile=" + s.rspfile_content;
+        char hex[32];
+        snprintf(hex, sizeof hex, "%llx", (unsigned long long)BuildLog::LogEntry::HashCommand(cmd));
+        if (e->second.hash != hex) disc.clear();
+      }
+    }
     if (reported_in_regeneration_ && reported_in_regeneration_->count(s.id) && (!s.deps.empty() || !s.depfile.empty()))
       disc = s.spec.hidden;
     for (auto& x : disc)
